@@ -439,6 +439,8 @@ var ruleDocs = map[string]string{
 		"(`// NullsFirst defaults to true for DESC indexes.`, `// NullsLast defaults to true for ASC indexes.`), sqlspec_oss.go partAttr prints only the non-default combination.",
 	"pg-index-order": "PostgreSQL: the order of a table's indexes is not significant: postgres/sqlspec_oss.go tableSpec writes UNIQUE-constraint indexes as `unique` blocks after the `index` blocks " +
 		"and convertUnique appends them after the plain indexes on the way back; indexes are compared by name.",
+	"pg-identity-defaults": "PostgreSQL identity: Start 0 equals 1 and Increment 0 equals 1: postgres/diff_oss.go identity() (`// Default IDENTITY attributes.`, " +
+		"`if i.Sequence.Start == 0 { i.Sequence.Start = defaultSeqStart }`, same for Increment); sqlspec_oss.go fromIdentity omits the value 1 and convertIdentity leaves 0 when the attribute is absent.",
 	"inherited-charset": "MySQL: an element's charset/collation equal to its parent's is not written (the element inherits it): sql/internal/sqlx/diff.go Charset/Collate " +
 		"(`// ... it needs to be defined explicitly on the schema. This is true, in case the element charset is different from its parent charset.`). " +
 		"The descriptor compares the effective value (own, else the parent's). An element value WITHOUT any parent value is not covered by this rule.",
@@ -446,10 +448,23 @@ var ruleDocs = map[string]string{
 
 // normParam may replace the rendering of one parameter field of a type.
 func (x *descr) normParam(t schema.Type, field string, fv reflect.Value) (string, bool) {
+	if ft, ok := t.(*schema.FloatType); ok && field == "Precision" && x.d.name == "postgres" && ft.Precision == 0 {
+		switch strings.ToLower(ft.T) {
+		case "real", "float4":
+			x.rule("pg-float-precision-default")
+			return "24", true
+		case "double precision", "float8":
+			x.rule("pg-float-precision-default")
+			return "53", true
+		}
+	}
 	if field != "Precision" || fv.Kind() != reflect.Ptr || !fv.IsNil() {
 		return "", false
 	}
 	switch {
+	case x.d.name == "postgres" && isType(t, "*schema.TimeType") && strings.HasPrefix(strings.ToLower(t.(*schema.TimeType).T), "time"):
+		x.rule("pg-time-precision-default")
+		return "6", true
 	case x.d.name == "mysql" && isType(t, "*schema.TimeType"):
 		x.rule("mysql-time-precision-default")
 		return "0", true
@@ -602,6 +617,21 @@ func (x *descr) normAttr(a schema.Attr) (string, bool) {
 			x.rule("pg-nulls-distinct-default")
 			return "", true
 		}
+	case "*postgres.Identity":
+		seq := rv.FieldByName("Sequence")
+		if seq.Kind() != reflect.Ptr || seq.IsNil() {
+			return "", false
+		}
+		st, inc := seq.Elem().FieldByName("Start").Int(), seq.Elem().FieldByName("Increment").Int()
+		if st == 0 {
+			st = 1
+			x.rule("pg-identity-defaults")
+		}
+		if inc == 0 {
+			inc = 1
+			x.rule("pg-identity-defaults")
+		}
+		return fmt.Sprintf("%s{Generation:%q Start:%d Increment:%d}", tn, str("Generation"), st, inc), true
 	case "*postgres.IndexColumnProperty":
 		nf, nl := rv.FieldByName("NullsFirst").Bool(), rv.FieldByName("NullsLast").Bool()
 		if x.partDesc != nil && (*x.partDesc && nf && !nl || !*x.partDesc && nl && !nf) {
